@@ -79,6 +79,25 @@ def strict_eq(a, b):
     return a == b
 
 
+def value_eq(a, b):
+    """Equality that does not demand Python-type preservation of numbers (float 0.5 == Decimal('0.5'),
+    Decimal('1E+300') == 1e300 because both denote the same double); everything else strict."""
+    if isinstance(a, bool) or isinstance(b, bool):
+        return type(a) is type(b) and a == b
+    if isinstance(a, NUM) and isinstance(b, NUM):
+        if isinstance(a, float) or isinstance(b, float):
+            try:
+                return float(a) == float(b)
+            except OverflowError:
+                return False
+        return a == b
+    if isinstance(a, dict) and isinstance(b, dict):
+        return a.keys() == b.keys() and all(value_eq(a[k], b[k]) for k in a)
+    if isinstance(a, (list, tuple)) and isinstance(b, (list, tuple)):
+        return len(a) == len(b) and all(value_eq(x, y) for x, y in zip(a, b))
+    return strict_eq(a, b)
+
+
 def rows_diff(exp, got, limit=3, keyorder=False):
     """-> list of short difference descriptions (empty if equal)."""
     out = []
